@@ -283,8 +283,46 @@ pub fn api(ctx: &mut Ctx) {
     }
 }
 
+fn atoms2() -> Vec<Tree> {
+    vec![Tree::I(1), Tree::name("A")]
+}
+
+/// deeper trees over a 2-atom alphabet: index arithmetic after (several) nested lists
+pub fn deep(ctx: &mut Ctx) {
+    let mut real = Real::new();
+    let s = if ctx.tier_thorough { 7 } else { 6 };
+    let ts = trees_up_to(s, &atoms2());
+    let us = trees_up_to(3, &atoms2());
+    ctx.extra.push(("deep_trees".into(), crate::core::J::Int(ts.len() as i64)));
+    for t in &ts {
+        if t.points() < 5 {
+            continue; // covered by the other families
+        }
+        for u in &us {
+            let mut base = M::default();
+            base.c = vec![t.clone(), u.clone()];
+            for name in ["CODE.POSITION", "CODE.CONTAINER", "CODE.CONTAINS", "CODE.MEMBER"] {
+                run_step(ctx, &mut real, name, &base, none);
+            }
+        }
+        // EXTRACT / INSERT at every in-range index and a few outside
+        let n = t.points() as i32;
+        for i in (-1..=n + 1).chain([i32::MIN, i32::MAX]) {
+            let mut m0 = M::default();
+            m0.c = vec![t.clone(), Tree::I(77)];
+            m0.i = vec![i];
+            run_step(ctx, &mut real, "CODE.EXTRACT", &m0, none);
+            run_step(ctx, &mut real, "CODE.INSERT", &m0, none);
+        }
+        let mut m0 = M::default();
+        m0.c = vec![t.clone()];
+        run_step(ctx, &mut real, "CODE.SIZE", &m0, none);
+    }
+}
+
 pub fn run(ctx: &mut Ctx) {
     match ctx.family.as_str() {
+        "deep" => deep(ctx),
         "unary" => unary(ctx),
         "binary" => binary(ctx),
         "api" => api(ctx),
